@@ -136,18 +136,30 @@ func (el *ErrorListener) ReportContextSensitivity(recognizer antlr.Parser, dfa *
 func ParseZqlString(text string) string {
 	t := strings.TrimSuffix(strings.TrimPrefix(text, `"`), `"`)
 
-	//remove golang string back slash escaping
-	t = strings.Replace(t, `\\`, `\`, -1)
+	// Unescape in a single pass. Replacing the escapes one after the other re-reads the output of
+	// an earlier replacement: an escaped backslash followed by n became a line feed.
+	result := strings.Builder{}
+	for i := 0; i < len(t); i++ {
+		if t[i] != '\\' || i+1 == len(t) {
+			result.WriteByte(t[i])
+			continue
+		}
+		i++
+		switch t[i] {
+		case 'f':
+			result.WriteByte('\f')
+		case 'n':
+			result.WriteByte('\n')
+		case 'r':
+			result.WriteByte('\r')
+		case 't':
+			result.WriteByte('\t')
+		default: // escaped backslash or double quote
+			result.WriteByte(t[i])
+		}
+	}
 
-	//remove ZitiQL string escaping
-	t = strings.Replace(t, `\"`, `"`, -1)
-	t = strings.Replace(t, `\f`, "\f", -1)
-	t = strings.Replace(t, `\n`, "\n", -1)
-	t = strings.Replace(t, `\r`, "\r", -1)
-	t = strings.Replace(t, `\t`, "\t", -1)
-	t = strings.Replace(t, `\\`, `\`, -1)
-
-	return t
+	return result.String()
 }
 
 var dateTimeStripper = regexp.MustCompile(`^\s*datetime\(\s*(.*?)\s*\)\s*$`)
